@@ -203,16 +203,27 @@ def _types_compare(t_l, t_r):
     return t
 
 
-def _types_loop_changes(env, var, t):
+def _types_loop_changes(env, var, t, func=True):
     """
-    Inside the body of a loop: would binding ``var`` to a value of type ``t``
-    change the type the variable had when the loop was entered?
+    Would binding ``var`` to a value of type ``t`` change a type that code typed
+    earlier relies on? Inside the body of a loop: the type the variable had when the
+    loop was entered (the body is typed once). At module level (``func`` false): the
+    type the variable has had so far (the functions defined so far read module-level
+    variables when they are called, not when they are defined).
     """
     t_entry = (env.get("for") or {}).get(var)
-    return t_entry is not None and t_entry != t
+    if t_entry is None and not func:
+        t_entry = env.get(var)
+    return (
+        t_entry is not None and not isinstance(t_entry, TypeError) and t_entry != t
+    )
 
 
-def _types_loop_error():
+def _types_loop_error(func=True):
+    if not func:
+        return TypeErrorRoot(
+            "assignment changes the type of a variable inside a loop or at module level"
+        )
     return TypeErrorRoot("assignment changes the type of a variable inside a loop")
 
 
@@ -252,7 +263,17 @@ def types(a, env=None, func=False):
     # Handle cases in which the input node is a statement.
     if isinstance(a, ast.Module):
         rules_no_restriction(a)
+        # The entry point runs after the whole module has been executed: its body is
+        # typed last, with the bindings the module ends up with.
+        mains = [
+            a_
+            for a_ in a.body
+            if isinstance(a_, ast.FunctionDef) and a_.name == "nada_main"
+        ]
         for a_ in a.body:
+            if a_ not in mains:
+                env = types(a_, env, func)
+        for a_ in mains:
             env = types(a_, env, func)
 
         # Remove syntax restriction attributes that appear for descendants
@@ -351,9 +372,9 @@ def types(a, env=None, func=False):
                 elif (
                     not isinstance(t, TypeError)
                     and t is not None
-                    and _types_loop_changes(env, target.id, t)
+                    and _types_loop_changes(env, target.id, t, func)
                 ):
-                    audits(a, "types", _types_loop_error())
+                    audits(a, "types", _types_loop_error(func))
                 elif t is not None:
                     audits(a, "types", typeerror_demote(t))
                     audits(target, "types", TypeInParent())
@@ -460,8 +481,8 @@ def types(a, env=None, func=False):
                     )
                     audits(a, "types", t)
                     audits(a.target, "types", t)
-                elif _types_loop_changes(env, a.target.id, t_u):
-                    t = _types_loop_error()
+                elif _types_loop_changes(env, a.target.id, t_u, func):
+                    t = _types_loop_error(func)
                     audits(a, "types", t)
                     audits(a.target, "types", t)
                 else:
@@ -516,10 +537,11 @@ def types(a, env=None, func=False):
             audits(a.target, "types", int)
             if isinstance(t_i, TypeError):
                 pass  # Allow the error to pass through.
-            elif _types_loop_changes(env, var, int):
+            elif _types_loop_changes(env, var, int, func):
                 # The loop variable is a variable of an enclosing loop's body that had
-                # another type when that loop was entered.
-                audits(a.target, "types", _types_loop_error())
+                # another type when that loop was entered (or a module-level variable
+                # of another type).
+                audits(a.target, "types", _types_loop_error(func))
             elif t_i == range:
                 env[var] = int
                 # The body is typed once, so the types of the variables that exist when
